@@ -342,9 +342,12 @@ class L2Env:
         import yaml
 
         paths = []
-        for f in files:
+        self.batch = getattr(self, "batch", 0) + 1
+        for i, f in enumerate(files):
             self.n += 1
-            p = self.tmp / f"cfg{self.n}.yaml"
+            # the position of a file among the sources, never its name, decides precedence: every other batch is named in
+            # DESCENDING alphabetical order (seeded change C13-D sorted the --configuration files by path)
+            p = self.tmp / (f"{'zyxwvu'[i % 6]}{self.n}.yaml" if self.batch % 2 else f"cfg{self.n}.yaml")
             p.write_text(yaml.safe_dump({"nunavut.lang." + lang: unwrap(f)}))
             paths.append(p)
         return paths
@@ -497,7 +500,9 @@ def l3_case(draw):
         "extension": draw(st.sampled_from([None, ".hh", ".x"])),
         "stem": draw(st.sampled_from([None, "_n_"])),
     }
-    return {"lang": lang, "files": files, "flags": flags, "subprocess": draw(st.integers(0, 19)) == 0}
+    # the same file may be named twice (-c a b a): its second mention is a later source than b
+    repeat = len(files) >= 2 and draw(st.integers(0, 3)) == 0
+    return {"lang": lang, "files": files, "flags": flags, "subprocess": draw(st.integers(0, 19)) == 0, "repeat_first": repeat}
 
 
 def l3_override(flags) -> dict:
@@ -539,20 +544,23 @@ def check_l3(ctx: core.Ctx, case, env: L2Env):
     nsdir.mkdir(exist_ok=True)
     argv += [str(nsdir)]
     cfgs = env.write_files(case["lang"], case["files"])
+    if cfgs and case.get("repeat_first"):
+        cfgs = cfgs + [cfgs[0]]
     if cfgs:  # one flag, several values (nargs="*"): later files override earlier ones
         argv += ["--configuration"] + [str(p) for p in cfgs]
     if case.get("subprocess"):
         rc, out, err = tool.run_sub(argv)
     else:
         rc, out, err = tool.run_inproc(argv)
-    mcase = {"lang": case["lang"], "files": case["files"], "override": l3_override(flags)}
+    mcase = {"lang": case["lang"], "files": case["files"] + ([case["files"][0]] if case.get("repeat_first") and case["files"] else []), "override": l3_override(flags)}
     exp_sec, shorthand = expected_section(mcase)
     exp = unwrap(exp_sec)
     ctx.case(
         ("l3", case),
         nontrivial_l2(mcase) or any(flags[k] for k in ("omit_float_serialization_support", "enable_serialization_asserts")),
         sample={"level": "cli --list-configuration", "argv": argv, "files": case["files"]},
-        classes=["l3.sub" if case.get("subprocess") else "l3.inproc", "l3." + case["lang"]] + (["l3.shorthand"] if shorthand else []),
+        classes=["l3.sub" if case.get("subprocess") else "l3.inproc", "l3." + case["lang"]] + (["l3.shorthand"] if shorthand else []) + (["l3.file-named-twice"] if case.get("repeat_first") else [])
+        + (["l3.files-not-in-alphabetical-order"] if [str(p) for p in cfgs] != sorted(str(p) for p in cfgs) else []),
     )
     if rc != 0:
         return [("L3|cli-failed", f"argv={argv!r} rc={rc} stderr={err[-800:]!r}")]
